@@ -570,6 +570,33 @@ def paired_faults(mon: Monitor, ctx, bases: int, pairs: int):
         ctx.count("paired_bases")
 
 
+def zip_switch_outside_protected(mon: Monitor, ctx):
+    """a token encrypted WITHOUT compression whose plaintext happens to be a valid DEFLATE stream; "zip":"DEF" is then written into the shared
+    unprotected or the per-recipient header (not integrity protected): the plaintext that comes back is the one that was encrypted"""
+    import zlib
+    from refjose.prim import deflate_raw
+    rng = ctx.rng
+    texts = [deflate_raw(b"the text an attacker wants the recipient to read " * 8), zlib.compress(b"another text " * 30), deflate_raw(b"")]
+    for alg, enc in (("A128KW", "A128GCM"), ("dir", "A128CBC-HS256"), ("ECDH-ES+A128KW", "A256GCM")):
+        for form in ("flattened", "general"):
+            for pt in texts:
+                rk, sk = g.keys_for(alg, enc, "P-256")
+                base = g.make(form, enc, [(alg, rk, sk)], pt, alg_in="recipient" if form == "general" else "protected")
+                jkey, jsender = jkeys(base)
+                rrk, rrs = g.ref_keys(base)
+                allow = base.allow + ["DEF"]
+                ctx.count("base_tokens")
+                for where in ("unprotected", "recipient", "both"):
+                    t = copy.deepcopy(base.token)
+                    if where in ("unprotected", "both"):
+                        t["unprotected"] = {**(t.get("unprotected") or {}), "zip": "DEF"}
+                    if where in ("recipient", "both"):
+                        holder = t["recipients"][-1] if "recipients" in t else t
+                        holder["header"] = {**(holder.get("header") or {}), "zip": "DEF"}
+                    for ep_name, ep in entry_points(base):
+                        mon.judge(base, "zip-switch-outside-protected", where, t, jkey, jsender, rrk, rrs, allow, ep_name, ep, expect_reject=False)
+
+
 def long_run_cases(mon: Monitor, ctx):
     """more than 2^16 decryptions in one process, valid and tampered tokens interleaved: the verdict of the N-th call is that of the first"""
     j = J.load()
@@ -645,17 +672,23 @@ def plan(tier):
     for n in (2, 3, 4):
         items.append(("multi", str(n), "A128CBC-HS256", None, False))
         items.append(("multi", str(n), "A256GCM", None, True))
+    for lst in ("A128KW|A256KW", "A256KW|A128KW|A192KW", "A128GCMKW|A256GCMKW", "A128KW|A256GCMKW|A192KW"):
+        items.append(("multi", lst, "A128GCM", None, False))
     return items
 
 
 def build(item, rng):
     form, alg, enc, curve, zip_ = item
     if form == "multi":
-        n = int(alg)
-        pool = ["A128KW", "A256KW", "RSA-OAEP", "ECDH-ES+A128KW", "A192GCMKW", "PBES2-HS256+A128KW", "RSA1_5", "ECDH-ES+A256KW"]
-        algs = rng.sample(pool, n)
-        if "A128KW" not in algs:
-            algs[0] = "A128KW"
+        if "+" in alg or alg.startswith("A"):
+            algs = alg.split("|")          # a fixed list: recipients that differ only in the key size their algorithm wants
+            n = len(algs)
+        else:
+            n = int(alg)
+            pool = ["A128KW", "A256KW", "RSA-OAEP", "ECDH-ES+A128KW", "A192GCMKW", "PBES2-HS256+A128KW", "RSA1_5", "ECDH-ES+A256KW"]
+            algs = rng.sample(pool, n)
+            if "A128KW" not in algs:
+                algs[0] = "A128KW"
         specs = []
         for i, a in enumerate(algs):
             rk, sk = g.keys_for(a, enc, rng.choice(g.ECDH_CURVES), kid=f"r{i}")
@@ -691,7 +724,7 @@ def run_shard(ctx):
             break
         base, other = build(item, ctx.rng)
         ctx.count("base_tokens")
-        ctx.cell("base", item[0], item[1] if item[0] != "multi" else "n=" + item[1], item[2])
+        ctx.cell("base", item[0], item[1] if item[0] != "multi" else ("n=" + item[1] if item[1].isdigit() else item[1]), item[2])
         if len(ctx.samples) < 2:
             ctx.sample({"item": item, "base_token": base.token})
         run_base(mon, base, other, ctx)
@@ -706,6 +739,8 @@ def run_shard(ctx):
                 b2 = EBase("compact", o.value, {}, base.plaintext, base.recs, json.loads(b64u_dec(o.value.split(".")[0])))
                 run_base(mon, b2, None, ctx, families={"respell-protected", "noncanonical-b64-protected", "bitflip-tag", "bitflip-iv", "tag-truncate",
                                                        "iv-truncate", "tag-extend", "nonempty-ek-direct", "zip-added", "tag-boundary-shift", "iv-boundary-shift", "whitespace-or-padding"})
+    if ctx.shard == 14:
+        zip_switch_outside_protected(mon, ctx)
     if ctx.shard == 15:
         mon.tr.stop()
         long_run_cases(mon, ctx)
